@@ -126,6 +126,45 @@ class Units:
         return OTHER
 
 
+def _index_bases(u, fn: Func, e: ast.AST, depth: int = 0) -> set:
+    """What e counts from, relative to ast line numbers (which count from 1): {1} for a line number as it is, {0} for a line
+    number minus one, {k} for other constant shifts; several values when the bindings of a name differ; empty when e is not
+    derived from line numbers by constant shifts.  `x -= 1` / `x += 1` steps are movements between lines and do not change
+    what the variable counts from."""
+    if depth > 5:
+        return set()
+    if isinstance(e, ast.Attribute):
+        return {1} if e.attr in LINE_FIELDS else set()
+    if isinstance(e, ast.BinOp) and isinstance(e.op, (ast.Add, ast.Sub)) and isinstance(e.right, ast.Constant) and isinstance(e.right.value, int):
+        k = e.right.value if isinstance(e.op, ast.Add) else -e.right.value
+        return {b + k for b in _index_bases(u, fn, e.left, depth + 1)}
+    if isinstance(e, ast.Call):
+        d = u.prog.dotted(e.func) or ""
+        if d in ("min", "max") and e.args:
+            out = set()
+            for a in e.args:
+                if isinstance(a, (ast.GeneratorExp, ast.ListComp)):
+                    out |= _index_bases(u, fn, a.elt, depth + 1)
+                elif isinstance(a, ast.Name) and len(e.args) == 1:
+                    vals = [v for _s, v in bindings(fn).get(a.id, []) if v is not None]
+                    for v in vals:
+                        if isinstance(v, (ast.ListComp, ast.GeneratorExp, ast.SetComp)):
+                            out |= _index_bases(u, fn, v.elt, depth + 1)
+                else:
+                    out |= _index_bases(u, fn, a, depth + 1)
+            return out
+        return set()
+    if isinstance(e, ast.Name):
+        if e.id in fn.all_params:
+            return {1} if e.id in LINE_FIELDS else set()
+        out = set()
+        for s_, v in bindings(fn).get(e.id, []):
+            if v is not None and not isinstance(s_, ast.AugAssign):
+                out |= _index_bases(u, fn, v, depth + 1)
+        return out
+    return set()
+
+
 def _is_byte_to_char_conversion(e: ast.Call) -> bool:
     """len(<x>.encode(..)[:B].decode(..)) - the recognised converter from a UTF-8 byte column to a character count."""
     a = e.args[0]
@@ -216,9 +255,56 @@ def check(prog: Program, tier: str) -> Result:
                     if any(p is not None and _mentions_lineno(u, p) for p in idx_parts):
                         n_expr += 1
                         res.ok("R13.2", fn.loc(n), fn.fq, short(n, 90), "line table built with the tokenizer's line separators, indexed by an ast line number")
+                # ---------------- R13.5 ast line numbers count from 1, lists from 0
+                if base in (SPLITLINES, SPLITTABLE, TOKLINES, "TOKTABLE") and not isinstance(n.slice, ast.Slice) and isinstance(n.ctx, ast.Load):
+                    bs = _index_bases(u, fn, n.slice)
+                    if bs:
+                        n_expr += 1
+                        worst = max(bs)
+                        guarded = False
+                        if worst >= 1:
+                            # an explicit bound test of the index against the length of the table on the path
+                            from ..pathcond import PathAnalysis, entails
+                            pa13 = PathAnalysis(prog, fn)
+                            worlds = pa13.worlds_at(n)
+                            ivars = {v.id for v in ast.walk(n.slice) if isinstance(v, ast.Name)}
+                            pairs = []
+                            for t0 in ast.walk(fn.node):
+                                if isinstance(t0, ast.Compare):
+                                    operands = [t0.left] + list(t0.comparators)
+                                    for i_, op_ in enumerate(t0.ops):     # a < b < c  =  a < b and b < c
+                                        pairs.append(ast.copy_location(ast.Compare(left=operands[i_], ops=[op_], comparators=[operands[i_ + 1]]), t0))
+                            for t in pairs:
+                                if isinstance(t, ast.Compare) and len(t.ops) == 1 and isinstance(t.ops[0], (ast.Lt, ast.LtE, ast.Gt, ast.GtE)) \
+                                        and any(isinstance(c, ast.Call) and isinstance(c.func, ast.Name) and c.func.id == "len" and c.args and norm(c.args[0]) == norm(n.value)
+                                                for c in [t.left] + t.comparators) and ({v.id for v in ast.walk(t) if isinstance(v, ast.Name)} & ivars):
+                                    # index = var + k; the test bounds var by len(T) + c; needed: index <= len(T) - 1
+                                    idx = n.slice
+                                    k = 0
+                                    if isinstance(idx, ast.BinOp) and isinstance(idx.op, (ast.Add, ast.Sub)) and isinstance(idx.right, ast.Constant) and isinstance(idx.right.value, int):
+                                        k = idx.right.value if isinstance(idx.op, ast.Add) else -idx.right.value
+                                        idx = idx.left
+                                    if not isinstance(idx, ast.Name):
+                                        continue
+                                    var_left = isinstance(t.left, ast.Name) and t.left.id == idx.id
+                                    var_right = isinstance(t.comparators[0], ast.Name) and t.comparators[0].id == idx.id
+                                    if not (var_left or var_right):
+                                        continue
+                                    op = type(t.ops[0])
+                                    if var_right:      # len(T) OP var  ==  var MIRROR(OP) len(T)
+                                        op = {ast.Lt: ast.Gt, ast.Gt: ast.Lt, ast.LtE: ast.GtE, ast.GtE: ast.LtE}[op]
+                                    for pol in (True, False):
+                                        if worlds and all(entails(w.facts, pa13.formula(t, w, pol)) for w in worlds):
+                                            c = {(ast.Lt, True): -1, (ast.LtE, True): 0, (ast.Gt, False): 0, (ast.GtE, False): -1}.get((op, pol))
+                                            if c is not None and c + k <= -1:
+                                                guarded = True
+                        res.decide(worst <= 0 or guarded, "R13.5", fn.loc(n), fn.fq, short(n, 90),
+                                   "the index is a line number minus one" if worst <= 0 else "a later line is read under an explicit test against the number of lines" if guarded else
+                                   f"a list of lines (indexes 0..n-1) is indexed by an expression that can be an ast line number as it is (1..n; bindings count from {sorted(bs)}): "
+                                   "it reads the line AFTER the one the number names, and past the end when that is the last line (IndexError)")
     _r13_3(prog, res)
     _r13_4(prog, res)
-    res.floors.update({"R13.1": 3, "R13.2": 1, "R13.3": 4, "R13.4": 3})
+    res.floors.update({"R13.1": 3, "R13.2": 1, "R13.3": 4, "R13.4": 3, "R13.5": 2})
     res.analysed.update({"position_expressions": n_expr, "functions_returning_positions": {f"{k[0]}.{k[1]}": v for k, v in sorted(ret_units.items())}})
     return res
 
@@ -374,6 +460,12 @@ def _r13_4(prog: Program, res: Result) -> None:
 from ..selftest import Variant  # noqa: E402
 
 VARIANTS: List[Variant] = [
+    Variant("line-list-indexed-by-line-number-unbounded", "FIRE", "fixes",
+            "            1 < safe_position_lineno < len(source_lines)  # The line below the last one is not indented\n", "            1 < safe_position_lineno\n", "R13.5"),
+    Variant("line-list-indexed-by-line-number-minus-one", "SILENT", "fixes",
+            "            1 < safe_position_lineno < len(source_lines)  # The line below the last one is not indented\n            and re.findall(r\"^\\s+\", source_lines[safe_position_lineno])",
+            "            1 < safe_position_lineno\n            and re.findall(r\"^\\s+\", source_lines[safe_position_lineno - 2])"),
+    Variant("charno-line-index-without-minus-one", "FIRE", "core", "    line = lines[lineno - 1]\n", "    line = lines[lineno]\n", "R13.5"),
     Variant("match-stops-at-first-later-candidate", "FIRE", "pattern_matching",
             "        if m.span.start == module_body_range.start:\n            return m\n",
             "        if m.span.start == module_body_range.start:\n            return m\n        if m.span.start > module_body_range.start:\n            break\n", "R13.4"),
@@ -384,8 +476,8 @@ VARIANTS: List[Variant] = [
             "        if m.span.start == module_body_range.start:\n            return m\n",
             "        if m.span.start != module_body_range.start:\n            continue\n        return m\n"),
     Variant("column-added-without-conversion", "FIRE", "core",
-            "    character_offset = len(line.encode(\"utf-8\")[:col_offset].decode(\"utf-8\", errors=\"ignore\"))\n    return line_start_charnos[lineno - 1] + character_offset",
-            "    return line_start_charnos[lineno - 1] + col_offset", "R13.1"),
+            "        character_offset = len(line.encode(\"utf-8\")[:col_offset].decode(\"utf-8\", errors=\"ignore\"))\n",
+            "        character_offset = col_offset\n", "R13.1"),
     Variant("line-table-from-splitlines", "FIRE", "core", "    for line in split_lines(source):\n        charnos.append(start)", "    for line in source.splitlines(keepends=True):\n        charnos.append(start)", "R13.2"),
     Variant("insert-nodes-splitlines", "FIRE", "processing", "    lines = list(core.split_lines(source))  # Not str.splitlines(), which disagrees with ast linenos", "    lines = source.splitlines(keepends=True)", "R13.2"),
     Variant("findall-filters", "FIRE", "pattern_matching", "    return [m.string for m in finditer(pattern, source)]", "    return [m.string for m in finditer(pattern, source) if m.string.strip()]", "R13.3"),
